@@ -115,6 +115,21 @@ PROPS = {
                      'GetConfiguration is answered inline from local state and returns nil after Shutdown as well: not counted as a violation (it never blocks)'],
         timeout={'quick': 900, 'thorough': 7200},
     ),
+    'C18': dict(
+        props_file='Props/C18.v',
+        components=['c18', 'c06'],
+        comp_names={18: 'notification scripts on a real single-voter server (gain/lose leadership, reads of NotifyCh and LeaderCh)', 1801: 'overrideNotifyBool on a real 1-slot channel',
+                    1018: 'unbuffered NotifyCh with a slow consumer (monitored)', 6: 'node sequences (advertised leader after every handler)', 1001: 'cluster churn histories', 1002: 'election races'},
+        rule='(T) runLeader entry/exit notifications and setState->setLeader("","") are read from the Go AST into Model/LoopTable.v on every run and C18_table_ok is re-proved. '
+             '(i) overrideNotifyBool via the tag-guarded wrapper on a real chan bool of capacity 1: every sequence over {override false, override true, receive} up to length 6 (thorough 8) + random long ones; '
+             '(ii) real single-voter server: scripts of gain (heartbeat timeout) / lose (higher-term AppendEntries) / read NotifyCh / read LeaderCh, value read and role at rest after each op, diffed against the model; '
+             '(iii) unbuffered NotifyCh with a consumer sleeping 0-1.5 ms per message over 6-11 forced transitions: monitors alternation, message count, last value = role, LeaderCh final value = role; '
+             '(iv) node sequences (component 6, as C06/C01) compare the advertised leader after every handler incl. crash cuts; (v) cluster churn/election histories: monitor that a follower names only a server that led that term. '
+             'Non-trivial = at least two leaderships in the script',
+        assumptions=['transitions are forced by the harness (heartbeat timeout hook, higher-term AppendEntries); lease expiry and leadership transfer transitions are exercised only in the cluster histories',
+                     'shutdown while a notification is pending is best effort by design (the property is stated for a running server)'],
+        timeout={'quick': 900, 'thorough': 7200},
+    ),
     'C13': dict(
         props_file='Props/C13.v',
         components=['c13'],
